@@ -89,6 +89,14 @@ func (q *rtmp2MpegtsFilter) Push(msg base.RtmpMsg) {
 
 // ---------------------------------------------------------------------------------------------------------------------
 
+// drainIfNeeded 输入流结束时调用，如果还处于分析阶段并且缓存了数据，则将缓存的数据吐出
+func (q *rtmp2MpegtsFilter) drainIfNeeded() {
+	if q.done || len(q.data) == 0 {
+		return
+	}
+	q.drain()
+}
+
 func (q *rtmp2MpegtsFilter) drain() {
 	patpmt := mpegts.PackPat()
 	patpmt = append(patpmt, mpegts.PackPmt(q.videoCodecId, q.audioCodecId)...)
